@@ -311,4 +311,9 @@ def run(rep: Report, tier: str) -> None:  # noqa: C901
         ok = ok and a0.startswith("create_ast(")
     if not ok:
         rep.add(_finding("R25.6", "wiring", gs, gs.node.lineno, "generate_sdmx does not return ast_to_sdmx(create_ast(script), ...) as it is"))
+    # ---- R25.6: the script a TransformationScheme resolves to is a function of the scheme alone (shared with C17 R17.2) ----
+    rep.rule("R25.6", "no function of the API layer that converts between scripts and TransformationSchemes writes a process-global: every generated scheme has the same id, "
+                      "so anything cached per scheme id hands a later scheme the text of an earlier one")
+    from sa import globalsx as _gx7
+    _gx7.report_written_globals(P, rep, "R25.6", ("vtlengine.API", "vtlengine.AST.ASTString"), "the script run for a scheme then depends on the schemes converted before it", floor=0)
     rep.assumptions = ["pysdmx's Transformation / Ruleset / UserDefinedOperator store the given texts unchanged", "ANTLR naming convention between grammar labels and constructor methods"]
